@@ -9,6 +9,7 @@ import ErrModel.Engine
 import ErrModel.Report
 import ErrModel.Proto
 import ErrModel.ProtoEnc
+import ErrModel.ProtoPay
 /-
   Observation streams printed by the driver (and, identically, by the harness
   from the real code).
@@ -203,6 +204,24 @@ def detBytesOfL : List Enc → List Str
   | e :: r => detBytesOf e ++ detBytesOfL r
 end
 
+def payBytesOfDet (d : Det) (hid : List Enc) : String :=
+  if hid ≠ [] then "(skip)" else
+  match d.pay with
+  | .none => "(none)"
+  | p => match Proto.serPay p with
+    | some b => pStr b
+    | none => "(skip)"
+
+mutual
+/-- the protobuf bytes of `full_details` of every visible layer, in wire order -/
+def payBytesOf : Enc → List String
+  | .leaf _ d hid cs => payBytesOfDet d hid :: payBytesOfL cs
+  | .wrap _ d _ hid c => payBytesOfDet d hid :: payBytesOf c
+def payBytesOfL : List Enc → List String
+  | [] => []
+  | e :: r => payBytesOf e ++ payBytesOfL r
+end
+
 def obsCase (e : Option Err) (refs : List (Option Err)) (trim : List Str := []) (specs : List Str := []) : String :=
   match e with
   | none => pList ["res", "(nil)", pList ["is", pList (refs.map fun r => pOB (isOpt Full none r))]]
@@ -215,6 +234,7 @@ def obsCase (e : Option Err) (refs : List (Option Err)) (trim : List Str := []) 
       pList ["enc", pEnc (encode Full vfStub e)],
       pList ["detbytes", pStrs (detBytesOf (encode Full vfStub e))],
       pList ["wirebytes", pStr (Proto.serW (Proto.core (encode Full vfStub e)))],
+      pList ["paybytes", pList (payBytesOf (encode Full vfStub e))],
       pList ["h1tree", pOpt pTree h1],
       pList ["h1enc", pOpt (fun x => pEnc (encode Full vfStub x)) h1],
       pList ["h2enc", pOpt (fun x => pEnc (encode Full vfStub x)) h2],
